@@ -503,9 +503,9 @@ PLAN = {
     ),
     "C17": dict(
         level="other",
-        functions=[TOU + "_get_tariff_schedule", TOU + "get_tariff", TOU + "get_tariffs", TOU + "get_demand_charge",
+        functions=[TOU + "_get_tariff_schedule", TOU + "get_tariff", TOU + "get_tariffs", TOU + "get_demand_charge", TOU + "__init__",
                    "acnportal.acnsim.interface.Interface.get_prices", "acnportal.acnsim.interface.Interface.get_demand_charge"],
-        lemmas=["C17.period_offsets_add"],
+        lemmas=["C17.period_offsets_add", "C17.a_wrapping_season_is_the_union_of_its_halves"],
         bounded=[dict(module="rt.fnmon", fn="tariff_monitor", label="all bundled tariffs x every (month, day, weekday) x every breakpoint; interface / analysis alignment")],
         text="PROVED (every well-formed schedule list - any number of schedules, seasons, weekday masks, breakpoint lists - and every instant; no bound): "
              "_get_tariff_schedule returns the schedule in effect (weekday mask admits the weekday, (month, day) inside the inclusive season) when exactly "
@@ -514,7 +514,12 @@ PLAN = {
              "final 'could not find a price' error is unreachable because every list starts at hour 0; get_demand_charge returns that schedule's demand "
              "charge; get_tariffs(start, n, period) has n entries and entry k is the lookup at start + k x period (and raises exactly when some of those "
              "instants has no unique schedule); Interface.get_prices / get_demand_charge are aligned with simulation time: entry k is the price of "
-             "simulation period (start or current) + k, i.e. of the instant sim.start + (start + k) x period. EXHAUSTIVE / BOUNDED (run-time contracts on the "
+             "simulation period (start or current) + k, i.e. of the instant sim.start + (start + k) x period. SEASONS THAT WRAP THE NEW YEAR: the constructor "
+             "TimeOfUseTariff.__init__ (loop invariant with ghost index maps; the file is an arbitrary list of schedule documents, their parsing an assumed "
+             "contract) leaves, for every document, exactly the pieces of its season - the season itself if start <= end, otherwise the two halves "
+             "start..Dec 31 and Jan 1..end (the copy made by copy(s)), each with the document's weekday mask - and nothing else, in some order; lemma: for "
+             "valid dates a wrapping season is the disjoint union of its halves, so the plain start <= (month, day) <= end test of the lookup decides "
+             "membership in the document's season. EXHAUSTIVE / BOUNDED (run-time contracts on the "
              "real functions): that each of the five bundled files yields a well-formed list which is total and unambiguous for every (month, day, "
              "weekday) - a finite fact about data, seasons wrapping the new year included -, the constructor's parsing, analysis.energy_cost / demand_charge.",
         note="a datetime is an object with a ghost instant theta; weekday / month / day / hour / minute / second are uninterpreted functions of theta with "
